@@ -132,13 +132,32 @@ func TestC17Expiry(t *testing.T) {
 		}
 		now := nowUnix()
 		exp := model.Apply(cmd, now)
-		got, _ := execHandler(h, cmd, 0)
-		msg := compareH(cmd, exp, got)
+		// with a watchdog: a command that never returns (a lock of the shared backend
+		// left held) is as bad for every connection as a wrong answer
+		run := func(cmd wire.Cmd) (hres, bool) {
+			done := make(chan hres, 1)
+			go func() { r, _ := execHandler(h, cmd, 0); done <- r }()
+			select {
+			case r := <-done:
+				return r, true
+			case <-time.After(hangBound()):
+				noteHang()
+				return hres{}, false
+			}
+		}
+		got, ok := run(cmd)
+		msg := ""
+		if !ok {
+			msg = "the command never returned"
+		} else {
+			msg = compareH(cmd, exp, got)
+		}
 		if msg == "" {
 			// and afterwards the state is what the model says
 			g := wire.Cmd{Kind: wire.Get, Keys: []string{c.key}}
-			msg = compareH(g, model.Apply(g, now), first(execHandler(h, g, 0)))
-			if msg != "" {
+			if after, ok := run(g); !ok {
+				msg = "state after the probe: the following get never returned (the backend is wedged)"
+			} else if msg = compareH(g, model.Apply(g, now), after); msg != "" {
 				msg = "state after the probe: " + msg
 			}
 		}
@@ -146,6 +165,9 @@ func TestC17Expiry(t *testing.T) {
 		if msg != "" {
 			p := rec.Violation("TestC17Expiry", map[string]interface{}{"ttl_set_via": c.via.String(), "probe": c.probe.String()})
 			t.Errorf("C17 expiry: entry given TTL 1 via %s, 2.1s later %s: %s; replay %s", c.via, c.probe, msg, p)
+			if strings.Contains(msg, "never returned") {
+				return // everything after this would only wait for the same lock
+			}
 		}
 	}
 }
